@@ -41,7 +41,11 @@ def _rejects():
         "net.tcp.Port": [("neg", -1), ("over", 65536)],
         "net.udp.Port": [("over", 70000)],
         "boolean": [("two", 2), ("neg", -1), ("big", 255)],
-        "digest": [("badhex", ("zz", None, None)), ("shortmd5", ("abcd", None, None)), ("shortsha1", (None, "abcd", None)), ("longsha256", (None, None, "00" * 40))],
+        "digest": [("badhex", ("zz", None, None)), ("shortmd5", ("abcd", None, None)), ("shortsha1", (None, "abcd", None)), ("longsha256", (None, None, "00" * 40)),
+                   # the right number of hex digits plus white space (an unstripped line of a checksum file, a hash printed in groups)
+                   ("md5_trailing_newline", (gen.MD5 + "\n", None, None)), ("md5_trailing_crlf", (gen.MD5 + "\r\n", None, None)), ("md5_leading_blank", (" " + gen.MD5, None, None)),
+                   ("md5_inner_tab", (gen.MD5[:16] + "\t" + gen.MD5[16:], None, None)), ("sha1_grouped", (None, " ".join(["ab" * 4] * 5), None)),
+                   ("sha256_trailing_newline", (None, None, "ab" * 32 + "\n")), ("md5_odd", (gen.MD5[:-1], None, None)), ("md5_0x", ("0x" + gen.MD5[2:], None, None))],
         "net.ipaddress": [("octet", "999.1.1.1"), ("text", "not an address"), ("toolong", "1.2.3.4.5"), ("neg", -1), ("huge", 2**128)],
         "net.ipnetwork": [("text", "not a network"), ("hostbits", "10.0.0.1/8"), ("prefix", "10.0.0.0/40")],
         "net.IPAddress": [("text", "nonsense")],
@@ -139,10 +143,21 @@ def run(tier):
             lc = [("list:" + l, [v, v], "accept") for l, v, m in good] + [("empty", [], "none"), ("none", None, "none")]
             lc += [("list-with-bad:" + l, [good[0][1], v], "reject") for l, v, m in bad if good]
             lc += [("scalar-instead-of-list", good[0][1], "unspec")] if good else []
+            # a list that starts with an element ALREADY of the element type (taken from another record's field) and goes on
+            # with raw / unrepresentable values -- `rec.ports = other.ports + [70000]`
+            if good:
+                try:
+                    conv = list(D([good[0][1]], "x").f)
+                except Exception:
+                    conv = []
+                if conv and isinstance(conv[0], fcls.__type__):
+                    lc += [("list-converted-then-raw:" + l, conv + [v], "accept") for l, v, m in good[:2]]
+                    lc += [("list-converted-then-bad:" + l, conv + [v], "reject") for l, v, m in bad]
+                    lc += [("list-converted-bad-converted:" + l, conv + [v] + conv, "reject") for l, v, m in bad[:1]]
             cands = lc
         if not thorough and len(cands) > 9:
             keep = [c for c in cands if c[2] != "accept"] + [c for c in cands if c[2] == "accept"][:5]
-            cands = keep[:12]
+            cands = keep[:16]
         ops_kinds = ["construct", "assign", "replace"]
         hist = []
         for c in cands:                                  # every candidate through every operation, on a fresh record
@@ -162,7 +177,10 @@ def run(tier):
             rec = None
             ops = []
             for op, (label, v, must) in h:
-                v = copy.deepcopy(v)
+                try:
+                    v = copy.deepcopy(v)
+                except Exception:
+                    v = list(v) if isinstance(v, list) else v      # some field-type instances cannot be deep-copied
                 before = json.dumps(observe.obs_record(rec), sort_keys=True) if rec is not None else None
                 raised, exc = False, "none"
                 try:
